@@ -2556,8 +2556,10 @@ impl HnswBackend {
         store.metadata[internal_id].clear();
         drop(store);
 
-        let mut meta_index = self.metadata_index.write();
-        meta_index.remove_doc(internal_id as u64, &old_metadata);
+        {
+            let mut meta_index = self.metadata_index.write();
+            meta_index.remove_doc(internal_id as u64, &old_metadata);
+        }
 
         drop(write_gate_guard);
         drop(snapshot_guard);
